@@ -394,9 +394,14 @@ func c16Sector(r *Run, nsectors int) {
 			if !hashesEq(p2, ref) || !hashesEq(p4, ref) {
 				r.violate("c16.sector-proof", "BuildProof/BuildSectorProof differ from the plain range proof for leaves [%d,%d)", start, end)
 			}
+			rpvEmit := func(what string, pr []types.Hash256, ok bool) {
+				r.emit(true, "rpv/"+what, "c16.rpv_verify", cat(hashToks(pr), hashToks(leafHashes[start:end]), []string{hx(start), hx(end), hx(rhp2.LeavesPerSector), hb(roots[0][:])}), []string{hbool(ok)})
+			}
 			v := rhp2.NewRangeProofVerifier(start, end)
 			v.ReadFrom(bytes.NewReader(sector[start*64 : end*64]))
-			if !v.Verify(p2, roots[0]) {
+			okH := v.Verify(p2, roots[0])
+			rpvEmit("honest", p2, okH)
+			if !okH {
 				r.violate("c16.sector-verify", "RangeProofVerifier rejects the honest proof for leaves [%d,%d)", start, end)
 			}
 			v = rhp2.NewRangeProofVerifier(start, end)
@@ -404,13 +409,18 @@ func c16Sector(r *Run, nsectors int) {
 			if len(p2) > 0 {
 				q := append([]types.Hash256(nil), p2...)
 				q[r.rng.IntN(len(q))][0] ^= 1
-				if v.Verify(q, roots[0]) {
+				okC := v.Verify(q, roots[0])
+				rpvEmit("corrupt", q, okC)
+				if okC {
 					r.violate("c16.sector-verify-corrupt", "RangeProofVerifier accepts a corrupted proof for leaves [%d,%d)", start, end)
 				}
 			}
 			v = rhp2.NewRangeProofVerifier(start, end)
 			v.ReadFrom(bytes.NewReader(sector[start*64 : end*64]))
-			if v.Verify(append(append([]types.Hash256(nil), p2...), r.randHash()), roots[0]) {
+			longP := append(append([]types.Hash256(nil), p2...), r.randHash())
+			okL := v.Verify(longP, roots[0])
+			rpvEmit("long", longP, okL)
+			if okL {
 				r.violate("c16.sector-verify-long", "RangeProofVerifier accepts an over-long proof for leaves [%d,%d)", start, end)
 			}
 			if end == start+1 {
